@@ -11,7 +11,7 @@ try:
     if s.count(old) != 1:
         print(f"edit site matches {s.count(old)} times"); sys.exit(9)
     open(p, "w").write(s.replace(old, new))
-    env = dict(os.environ, PYVC_REPO=d)
+    env = dict(os.environ, PYVC_REPO=d, PYVC_EVIDENCE_DIR=d + "/evidence")
     r = subprocess.run(["/verif/check", prop] + sys.argv[5:], env=env)
     print("exit", r.returncode)
 finally:
